@@ -2,6 +2,9 @@ package worlda
 
 import (
 	"fmt"
+	"os"
+	"path/filepath"
+	"strconv"
 	"strings"
 	"time"
 
@@ -192,10 +195,32 @@ func runC10(r *core.Run) {
 		}
 	}
 	a.Now = a.Now.Add(24 * time.Hour)
-	rotErr, crashed := a.Rotate(RotArgs{Flags: Flags{Overwrite: h.overwrite}})
+	// (localkm) the file the new key version would be saved in cannot be written: something else
+	// sits at its path. The operator may have asked to keep going over recoverable errors.
+	obstacle, kg := "", false
+	if cfg.KM == "localkm" && r.Chance(20, "key-file-unwritable?") {
+		next := oldPrimary + "_1"
+		if i := strings.LastIndexByte(oldPrimary, '_'); i > 0 {
+			if n, err := strconv.Atoi(oldPrimary[i+1:]); err == nil {
+				next = fmt.Sprintf("%s_%d", oldPrimary[:i], n+1)
+			}
+		}
+		obstacle = filepath.Join(a.Dir, "keys", next+".pem")
+		if err := os.Mkdir(obstacle, 0o755); err != nil {
+			obstacle = ""
+		} else {
+			kg = r.Bool("keep-going-over-it")
+			r.Fault("key-file-unwritable", "%s keep_going=%v", next, kg)
+		}
+	}
+	rotErr, crashed := a.Rotate(RotArgs{Flags: Flags{Overwrite: h.overwrite, KeepGoing: kg}})
 	plan.Mode = 0
 	r.Probes["ncalls"] = plan.N
 	fired := plan.Fired
+	if obstacle != "" {
+		os.Remove(obstacle) // the fault is over
+		fired++
+	}
 	firstSite := "fault-free"
 	for _, l := range plan.Sites {
 		_ = l
